@@ -64,7 +64,7 @@ ASSUMPTIONS = [
     "only avoids ids in `circuits` (on_created refuses a next-hop id that is in use, mirrored)",
     "AEAD: `AeadLaws` (dec/enc inverse, ciphertext determines key, direction and body) and distinct keys for distinct "
     "entries are explicit hypotheses of the path / other-circuit theorems; signatures: `sigok` is an input of on_destroy",
-    "remove_tunnel_delay = 0 in the correspondence run; request-cache time-outs are independent events (any subset may "
+    "remove_tunnel_delay is 0 in 70 % and 5 s in 30 % of the histories (deferred pops are events of their own); request-cache time-outs are independent events (any subset may "
     "expire); do_remove sweeps, rendezvous relays and replays of genuine ciphertexts are not generated (C09/C04)",
 ]
 
@@ -98,8 +98,9 @@ class FakeTransport:
 class World:
     """n real nodes (indices 1..n), outsider index n+1; address/peer index 0 is the zero address."""
 
-    def __init__(self, n: int, rng: _random.Random):
+    def __init__(self, n: int, rng: _random.Random, delay: float = 0):
         import vclock
+        self.delay = delay
         from ipv8.messaging.anonymization import exit_socket as es_mod
         from ipv8.messaging.anonymization.community import TunnelCommunity, TunnelSettings
         from ipv8.messaging.anonymization.tunnel import PEER_FLAG_EXIT_BT, PEER_FLAG_RELAY, PEER_FLAG_SPEED_TEST
@@ -157,7 +158,7 @@ class World:
             s = TunnelSettings()
             s.min_circuits = 0
             s.max_circuits = 0
-            s.remove_tunnel_delay = 0
+            s.remove_tunnel_delay = delay
             s.peer_flags = set(flags)
             node = MockIPv8("curve25519", Node, settings=s)
             node.overlay.cancel_all_pending_tasks()
@@ -224,7 +225,7 @@ class World:
 
     def begin(self):
         self.step_sends, self.step_exit, self.step_orig = [], [], []
-        self.loop.advance(0.001)          # every action happens at its own instant: beat_heart() becomes visible
+        self.loop.advance(0.000001)       # every action happens at its own instant: beat_heart() becomes visible
 
     def accounting(self, i: int):
         """Traffic counters and heartbeat of the entries that hold keys (circuits, exit sockets).  Relay entries are
@@ -247,11 +248,8 @@ class World:
     def call(self, fn, *a, **kw):
         async def go():
             r = fn(*a, **kw)
-            if asyncio.iscoroutine(r) or isinstance(r, asyncio.Future):
-                try:
-                    await r
-                except Exception:
-                    self.raised += 1
+            if asyncio.iscoroutine(r):
+                asyncio.ensure_future(r)
         self.loop.run_until_complete(go())
         self.drain()
 
@@ -296,7 +294,7 @@ class World:
                          self.aidx(c.hop.address) if (c.hops or c.unverified_hop) else 0,
                          self.pidx(c.unverified_hop.peer) if c.unverified_hop else 0,
                          (retry.packet_identifier + 1) if retry else 0,
-                         c.relay_early_count))
+                         c.relay_early_count, 1 if c.state == "CLOSING" else 0))
         rel = [(cid, r.circuit_id, self.aidx(r.hop.address), self.pidx(r.hop.peer), kb(r.hop), r.direction,
                 r.relay_early_count) for cid, r in o.relay_from_to.items()]
         ex = [(cid, self.aidx(e.hop.address), self.pidx(e.hop.peer), kb(e.hop),
@@ -406,6 +404,8 @@ class History:
             d["reuse"] = self.reuse
         if getattr(self, "expiry", None):
             d["expiry"] = self.expiry
+        if getattr(self, "late", None):
+            d["late"] = self.late
         if extra:
             d.update(extra)
         return d
@@ -544,7 +544,7 @@ class History:
                 bk["ready"] = True
                 bk["exit_key"] = c.hops[-1].keys.key_forward
                 bk["exit_node"] = w.key_idx.get(c.hops[-1].peer.public_key.key_to_bin(), 0)
-            elif c is None:
+            else:
                 bk["ready"] = False
 
     def act_open(self, fixed=None):
@@ -611,7 +611,15 @@ class History:
             ph = lambda e: 0 if not e.enabled else 1 if e.transport_ipv4 is None else 2 if e.transport_ipv6 is None else 3  # noqa: E731
             others = sum(1 for c2, e2 in w.ov(node).exit_sockets.items() if c2 != h[2] and ph(e2) in (1, 2))
             self.ctx.count(f"cell_at_exit:phase={ph(ex)}:other_sockets_opening={min(others, 2)}")
+        routes = {c: r for c, r in w.ov(node).relay_from_to.items()}
         w.inject(node, p.src, p.data)
+        for c, r in w.ov(node).relay_from_to.items():
+            if c in routes and routes[c] is not r:
+                # O9: an established relay route is never re-assigned (it may only be removed)
+                self.fail("TunnelCommunity.on_created:established-relay-route-overwritten",
+                          f"node {node}: relay entry {c} (to {w.aidx(routes[c].hop.address)} as {routes[c].circuit_id}) was "
+                          f"replaced by a route to {w.aidx(r.hop.address)} as {r.circuit_id} while it was in use",
+                          {"node": node})
         self.refresh_bk()
         ch = self.choices_for(node, h[2] if h[1] == "cell" else None)
         self.record(f"dlv {idx} {ch}".rstrip(), node, "deliver-" + h[1], True,
@@ -800,6 +808,7 @@ class History:
         w = self.w
         dt = dt if dt is not None else self.rng.choice([3, 7, 11, 25, 45, 52, 55, 58, 61])
         before = {i: self.timers_state(i) for i in range(1, w.n + 1)}
+        tables0 = {i: w.identity(i) for i in range(1, w.n + 1)}
         w.begin()
         w.loop.advance(float(dt))
         w.drain()
@@ -811,10 +820,16 @@ class History:
             c0, p0, r0 = before[i]
             c1, p1, r1 = self.timers_state(i)
             lines = [f"xq {i} {cid}" for cid in sorted(c0 - c1)] + [f"xp {i} {num + 1}" for num in sorted(p0 - p1)]
+            if w.delay:
+                # remove_* tasks whose sleep(remove_tunnel_delay) ended: the entry is popped by id
+                gone = [k for k in tables0[i] if k not in w.identity(i)]
+                lines += [f"rx{kind} {i} {cid}" for (kind, cid) in sorted(gone)]
+                self.ctx.count("delayed-pop", len(gone))
             for cid, ident in r0.items():
                 circ = w.ov(i).circuits.get(cid)
-                if circ is None:
-                    lines.append(f"xr {i} {cid}")
+                if circ is None or (circ.state == "CLOSING" and cid not in r1):
+                    if not any(l_ == f"rxC {i} {cid}" for l_ in lines) or True:
+                        lines.insert(len([l_ for l_ in lines if not l_.startswith("rx")]), f"xr {i} {cid}")
                     self.ctx.count("retry-timeout:circuit-removed")
                 elif r1.get(cid) != ident or cid not in r1:
                     if circ.unverified_hop is not None and cid in r1:
@@ -953,8 +968,9 @@ class History:
                 hi = self.hist.index(donor)
                 cell = CellPayload(cid, donor.data[29:], False, re_)
                 dcid = struct.unpack_from("!I", donor.data, 23)[0]
-                if dcid == cid and w.addr_idx.get(donor.dst) == node:
-                    return        # that would be a replay of a genuine cell, not a forgery (C04)
+                if dcid == cid:
+                    return        # same label: possibly a genuine cell of this very circuit (e.g. a PONG that on_ping sent
+                                  # to a spoofed source address), i.e. a replay, not a forgery (C04)
                 line = f"spl {node} {w.aidx(src)} {hi} {cid} {int(re_)}"
             elif kind == "clear":
                 # a well-formed PING or DATA that is neither encrypted nor flagged plaintext
@@ -1162,7 +1178,9 @@ class History:
                           f"{what}: removed {removed}", {"node": node})
             self.ctx.count("destroy:honoured" if removed else "destroy:authorised-but-kept")
             # the harness signed on behalf of the neighbour, which itself keeps its entries: that circuit is cut
-            for kind_, cid_ in removed:
+            # (with remove_tunnel_delay > 0 the entries are only scheduled for removal: take the named ones)
+            named = set(removed) | {(k_, cid) for k_ in "CRE"}
+            for kind_, cid_ in named:
                 for row in snap[kind_]:
                     if row[0] == cid_:
                         self.cut_keys.update(row[2] if kind_ == "C" else [row[4] if kind_ == "R" else row[3]])
@@ -1316,6 +1334,72 @@ class History:
         finally:
             w.close()
 
+    def act_resend_extend(self, o: int, cid: int, other: int):
+        """The originator gives up on the pending next hop and asks its last hop to extend to `other` instead (what the
+        retry time-out does; the unit tests call send_extend the same way)."""
+        w = self.w
+        c = w.ov(o).circuits[cid]
+        w.begin()
+        w.ov(o).send_extend(c, [w.nodes[other].my_peer.public_key.key_to_bin()], 1)
+        w.drain()
+        retry = w.ov(o).request_cache.get("retry", cid)
+        c2 = w.ov(o).circuits.get(cid)
+        if c2 is not None and c2.unverified_hop is not None and retry is not None:
+            line = f"xr {o} {cid} ext={w.pidx(c2.unverified_hop.peer)},{retry.packet_identifier + 1}"
+        else:
+            line = f"xr {o} {cid}"
+        self.record(line, o, "resend-extend", True, ("resend-extend", len(w.step_sends)))
+
+    def run_late_created(self, delay: float, when: str, wait: float):
+        """Small-scope family "a late answer to an EARLIER extend request of the same circuit": circuit X of node 1 goes
+        1 -> R(3) -> ? -> 5.  R's CREATE to the first candidate is held back; node 1 asks R to extend to the other
+        candidate instead, which succeeds (R pairs X with it); then, `wait` seconds later and either before or after the
+        circuit is complete (`when`), the first candidate's CREATED arrives at R.  Run with remove_tunnel_delay 0 and 5."""
+        _random.seed(self.sc_seed)
+        self.w = World(5, self.rng, delay)
+        w = self.w
+        try:
+            self.lines.append("reset 5" + (" defer" if delay else ""))
+            self.expect.append({"sends": [], "tables": None, "log": [], "step": -1, "kind": "reset"})
+            saved = {}
+            for j in (2, 4):
+                saved[j] = w.ov(1).candidates.pop(w.nodes[j].my_peer, None)
+            key = self.act_open((1, 3, 5))
+            for j, fl in saved.items():
+                if fl is not None:
+                    w.ov(1).candidates[w.nodes[j].my_peer] = fl
+            if key is None:
+                return
+            xid = key[1]
+            dst = lambda p: w.addr_idx.get(p.dst)      # noqa: E731
+            self.deliver_where(lambda h, p: dst(p) == 3 and h[3] == 1 and h[5] == 2)            # CREATE X at R
+            self.deliver_where(lambda h, p: dst(p) == 1 and h[5] == 3)                          # CREATED: EXTEND#1 leaves
+            self.deliver_where(lambda h, p: dst(p) == 3 and h[1] == "cell" and h[3] == 0)       # EXTEND#1 at R
+            held = [p for p in w.flight if w.header(p)[3] == 1 and w.header(p)[5] == 2 and dst(p) in (2, 4)]
+            if not held or xid not in w.ov(1).circuits:
+                self.ctx.count("late-created:setup-incomplete")
+                return
+            first = dst(held[0])
+            other = 2 if first == 4 else 4
+            is_held = lambda h, p: p is held[0]        # noqa: E731
+            self.act_resend_extend(1, xid, other)                                              # EXTEND#2
+            self.deliver_where(lambda h, p: dst(p) == 3 and h[1] == "cell" and h[3] == 0)       # ... at R
+            self.deliver_where(lambda h, p: dst(p) == other and h[3] == 1 and h[5] == 2)        # R's CREATE at `other`
+            self.deliver_where(lambda h, p: dst(p) == 3 and h[3] == 1 and h[5] == 3)            # CREATED: R pairs X
+            if when == "after-ready":
+                for _ in range(40):
+                    if not self.deliver_where(lambda h, p: not is_held(h, p)):
+                        break
+            if wait:
+                self.act_advance(wait)
+            self.deliver_where(is_held)                                                        # late CREATE at `first`
+            self.deliver_where(lambda h, p: dst(p) == 3 and h[3] == 1 and h[5] == 3)            # late CREATED at R
+            if not self.failed:
+                self.final_probe()
+            self.ctx.count(f"late-created:histories:delay={delay}")
+        finally:
+            w.close()
+
     def run_opening(self, seq, hops: int):
         """Small-scope exhaustive scenario: two circuits of different originators end at the SAME exit node; `seq`
         interleaves, per circuit, two first data cells (D) with the completion of its exit socket's IPv4 (4) and
@@ -1440,9 +1524,11 @@ class History:
         ctx, rng = self.ctx, self.rng
         _random.seed(self.sc_seed)
         n = rng.randint(4, 6)
-        self.w = World(n, rng)
+        delay = 5 if rng.random() < 0.3 else 0          # production default vs. the unit tests' setting
+        ctx.count(f"remove_tunnel_delay:{delay}")
+        self.w = World(n, rng, delay)
         try:
-            self.lines.append(f"reset {n}")
+            self.lines.append(f"reset {n}" + (" defer" if delay else ""))
             self.expect.append({"sends": [], "tables": None, "log": [], "step": -1, "kind": "reset"})
             ncirc = rng.randint(1, 6)
             ctx.count(f"nodes:{n}")
@@ -1687,8 +1773,21 @@ def run_reuses(ctx: Ctx, use_model: bool):
                 fresh = [f for f in ctx.failures if not f["signature"].endswith("third-party-data-delivered-while-extending")]
                 if len(fresh) >= 3 or len(ctx.disagreements) >= 3:
                     return
+    k = 0
+    for delay in (0, 5):
+        for when in ("at-once", "after-ready"):
+            for wait in (0, 2, 6):
+                h = History(ctx, ctx.rng.getrandbits(48))
+                h.late = {"delay": delay, "when": when, "wait": wait}
+                h.run_late_created(delay, when, wait)
+                k += 1
+                if use_model and not h.failed:
+                    compare(ctx, h, ctx.driver().batch(h.lines))
+                fresh = [f for f in ctx.failures if not f["signature"].endswith("third-party-data-delivered-while-extending")]
+                if len(fresh) >= 3 or len(ctx.disagreements) >= 3:
+                    return
     ctx.extra["id_reuse_enumeration"] = {"orders": len(reuse_orders()), "second_party": 2, "histories": n,
-                                         "partial_expiry_histories": m}
+                                         "partial_expiry_histories": m, "late_created_histories": k}
 
 
 def run(ctx: Ctx):
@@ -1710,7 +1809,10 @@ def search(ctx: Ctx, reason: str):
 def replay(ctx: Ctx, rec: dict):
     r = rec.get("replay", rec)
     h = History(ctx, r["sc_seed"], stop_at=None, verbose=True, do_sweep=bool(r.get("sweep")))
-    if r.get("expiry"):
+    if r.get("late"):
+        h.late = r["late"]
+        h.run_late_created(**r["late"])
+    elif r.get("expiry"):
         h.expiry = r["expiry"]
         h.run_expiry(**r["expiry"])
     elif r.get("reuse"):
